@@ -5,14 +5,15 @@
     bmc <datagram hex>                 -> reply <hex> | error <rule>        (Spec.BmcSession.step)
     bmc-lost <datagram hex>            -> same judgement, but the datagram is lost: the monitor counts it, the
                                           BMC does not act on it (Spec.BmcSession.stepLost); the answer is dropped
-    bmc-err <cc> <datagram hex>        -> same judgement, but the answer carries completion code <cc>
+    bmc-err <cc> <datagram hex>        -> same judgement, but the BMC refuses the request: it answers with completion
+                                          code <cc> and does not execute it (Spec.BmcSession.stepRefused)
     bmc-state                          -> <phase> <first broken rule | none>
-    model <pref s|i|g> <emptyRx s|i> <ignore 0|1> <max_retries> <closes 1|2|c> <user hex> <pw hex> <priv> <outSeq> <n>
-          <sid0> <seq0> <act0 0|1> <rqSeq0> <reply hex | silent>*
-        -> <outcome> | <kind>:<datagram hex> … | <auth> <sid> <seq> <activated> <rqSeq> <attached>
+    model <pref s|i|g> <emptyRx s|i> <closeGuard s|i> <noAuthRaises s|i> <ignore 0|1> <max_retries> <closes 1|2|c>
+          <user hex> <pw hex> <priv> <outSeq> <n> <sid0> <seq0> <act0 0|1> <rqSeq0> <att0 0|1> <auth0> <reply hex | silent>*
+        -> <outcome> | <kind>:<datagram hex> … | <auth> <sid> <seq> <activated> <rqSeq> <attached> | <clean-up outcome | ->
           (Model.Session.lifecycle against the scripted replies; with <closes> = 2 close_session() is called a
            second time after a successful life cycle; with "c" it is called as clean-up after a failure of
-           establish_session / a request, provided the session object was attached)
+           establish_session / a request, whatever the state — the caller cannot know how far the handshake got)
     loop  <pref s|i|g> <caps> <user hex> <pw hex> <priv> <tempSid> <challenge hex> <sid> <inSeq0> <outSeq> <n>
           <max_retries> <lost datagram numbers, comma separated | ->
         -> <outcome> | <phase> <first broken rule | none> | <number of datagrams>
@@ -84,37 +85,32 @@ def handleC06 (ds : DState) (line : String) : DState × String :=
   | ["bmc-err", cc, dg] =>
     match cc.toNat?, ofHex dg with
     | some cc, some dg =>
-      match Spec.BmcSession.step md5f ds.cfg ds.st dg with
-      | (st', .reply _) =>
-        let r := match Spec.Lan.parseLan dg with
-          | some p =>
-            match Spec.BmcSession.parseIpmiReq p.payload with
-            | some rq => Spec.BmcSession.lanPacket md5f p.auth ds.cfg.pw p.sid ds.st.outSeq
-                            (Spec.BmcSession.ipmiRsp rq cc [])
-            | none => []
-          | none => []
-        ({ ds with st := st' }, "reply " ++ toHex r)
+      match Spec.BmcSession.stepRefused md5f ds.cfg ds.st cc dg with
+      | (st', .reply r) => ({ ds with st := st' }, "reply " ++ toHex r)
       | (st', .protocolError w) => ({ ds with st := st' }, "error " ++ w.name)
     | _, _ => (ds, "bad-op")
   | ["bmc-state"] => (ds, s!"{phaseName ds.st.phase} {badName ds.st.bad}")
-  | "model" :: pref :: er :: ig :: mr :: closes :: user :: pw :: priv :: outSeq :: n :: sid0 :: seq0 :: act0 :: rq0 :: replies =>
+  | "model" :: pref :: er :: cg :: na :: ig :: mr :: closes :: user :: pw :: priv :: outSeq :: n :: sid0 :: seq0 :: act0 :: rq0 ::
+      att0 :: auth0 :: replies =>
     match mr.toNat?, ofHex user, ofHex pw, priv.toNat?, outSeq.toNat?, n.toNat?, sid0.toNat?, seq0.toNat?, rq0.toNat?,
-          replies.mapM parseReply with
-    | some mr, some user, some pw, some priv, some outSeq, some n, some sid0, some seq0, some rq0, some replies =>
+          auth0.toNat?, replies.mapM parseReply with
+    | some mr, some user, some pw, some priv, some outSeq, some n, some sid0, some seq0, some rq0, some auth0, some replies =>
       let cfg : Cfg := { user := user, pw := pw, priv := priv, outSeq := outSeq, pref := prefOf pref,
                          ignoreLen := ig == "1", emptyRx := if er == "s" then .asShipped else .intended,
-                         maxRetries := mr }
-      let c0 : Client := ⟨false, ⟨Gen.RmcpFormats.authPassword, sid0, seq0, act0 == "1", pw⟩, rq0⟩
+                         maxRetries := mr, closeGuard := cg != "s", noAuthRaises := na != "s" }
+      let c0 : Client := ⟨att0 == "1", ⟨auth0, sid0, seq0, act0 == "1", pw⟩, rq0⟩
       let r1 := lifecycle md5f scripted cfg n replies c0
-      let r := if closes == "2" && r1.outcome.isOk then
+      let (r, cl) : Result (List (Option (List Nat))) × String :=
+        if closes == "2" && r1.outcome.isOk then
           let r2 := close md5f scripted cfg r1.peer r1.client
-          (⟨r2.peer, r2.client, r1.sent ++ r2.sent, r2.outcome⟩ : Result (List (Option (List Nat))))
+          (⟨r2.peer, r2.client, r1.sent ++ r2.sent, r2.outcome⟩, "-")
         else if closes == "c" && !r1.outcome.isOk && (r1.sent.getLast?.map Prod.fst) != some Kind.close then
-          cleanupClose md5f scripted cfg r1
-        else r1
+          let (r2, o) := cleanupClose md5f scripted cfg r1
+          (r2, o.tag)
+        else (r1, "-")
       let c := r.client
-      (ds, s!"{r.outcome.tag} | {showSent r.sent} | {c.s.auth} {c.s.sid} {c.s.seq} {b2n c.s.activated} {c.rqSeq} {b2n c.attached}")
-    | _, _, _, _, _, _, _, _, _, _ => (ds, "bad-op")
+      (ds, s!"{r.outcome.tag} | {showSent r.sent} | {c.s.auth} {c.s.sid} {c.s.seq} {b2n c.s.activated} {c.rqSeq} {b2n c.attached} | {cl}")
+    | _, _, _, _, _, _, _, _, _, _, _ => (ds, "bad-op")
   | ["loop", pref, caps, user, pw, priv, tmp, chal, sid, inSeq, outSeq, n, mr, lost] =>
     match caps.toNat?, ofHex user, ofHex pw, priv.toNat?, tmp.toNat?, ofHex chal, sid.toNat?, inSeq.toNat?,
           outSeq.toNat?, n.toNat?, mr.toNat?, (if lost == "-" then some [] else parseNatList lost) with
